@@ -96,8 +96,9 @@ BUILT = {
             'Exploration: 350 (quick) / 24k (thorough) lens-relation pairs; per-surface ray records of the original and '
             'the transformed lens must agree at 1e-9 of the system scale after the stated transformation; scale_system is '
             'compared field by field with the lens rebuilt from the scaled spec. Held = no pair disagreed.',
-            'Rays that leave the domain of a relation (recorded off the vertex sheet, lost at a dummy met from behind) are '
-            'excluded and counted; the launch record of infinite-object lenses is not "downstream" of a dummy surface.',
+            'Rays that leave the domain of a relation (recorded off the vertex sheet, lost at a dummy met from behind, '
+            'travelling steeper than 84 deg to the axis where the iterated intersection is chaotic) are excluded and '
+            'counted; the launch record of infinite-object lenses is not "downstream" of a dummy surface.',
             'DESIGN.md §4 C07'),
     'C16': ('law monitor over the per-surface intensity log with an independent loss model (aperture test in own frame, Beer-Lambert over own segment length, simple coating factors) + icontract postcondition on RealRays.propagate/clip',
             'Exploration: ~250k (quick) / ~10M (thorough) (ray, surface) intensity records from generated lenses with '
